@@ -1374,8 +1374,288 @@ def run(chk):
             w0 = next(w for w in FULL_MONTHS[cul] if w in mwords)
             capt_control = w0 in mwords and regs.witness(w0) is not None and month_abbreviates(cul, w0) is not None
     chk.control('C06.capturable', capt_control)
+    rule_flags(chk, idx, W)
     chk.exhaustive = False
 
+
+
+# =====================================================================================================
+# C06.flags - flag discipline: results that carry a success/matched flag are objects (always truthy, or None when
+# the helper found nothing at all); using the object itself as the flag is the port slip behind the
+# `if relative_match:` family of defects
+# =====================================================================================================
+
+import collections as _collections
+
+FLAG_FIELDS = ('success', 'matched')
+
+# use sites triaged on the pinned tree (differential runs against the real extractor; see the report)
+FLAG_TRIAGED = {
+    ('BaseDateExtractor.starts_with_basic_date', 'match'):
+        'triaged: the truthiness test makes "starts with a date" mean "contains a date"; differential run of the real English '
+        'extractor (2016 inputs, 102 differ) - in every differing input the present behaviour keeps the fully specified date '
+        'that the `.success` variant drops, so no C06 input fails because of it',
+}
+
+
+def _callee(c):
+    f = c.func
+    return f.attr if isinstance(f, ast.Attribute) else (f.id if isinstance(f, ast.Name) else None)
+
+
+class FlagTypes:
+    """which classes carry a flag, which functions always return such an object, which locals hold one"""
+
+    def __init__(self, idx, scope=('recognizers_date_time', 'recognizers_text')):
+        self.idx = idx
+        self.flag = {}
+        mods = [m for m in idx.mods.values() if m.name.startswith(scope)]
+        for m in mods:
+            for c in m.classes.values():
+                for f in FLAG_FIELDS:
+                    has = f in c.methods
+                    init = c.methods.get('__init__')
+                    if init is not None:
+                        for n in ast.walk(init):
+                            t = n.targets[0] if isinstance(n, ast.Assign) else (n.target if isinstance(n, ast.AnnAssign) else None)
+                            if isinstance(t, ast.Attribute) and _is_name(t.value, 'self') and t.attr == f:
+                                has = True
+                    if has:
+                        self.flag.setdefault(c.name, f)
+            for name, v in m.assigns.items():
+                if isinstance(v, ast.Call) and _callee(v) == 'namedtuple' and len(v.args) == 2:
+                    try:
+                        fields = ast.literal_eval(v.args[1])
+                    except Exception:
+                        continue
+                    if isinstance(fields, str):
+                        fields = fields.replace(',', ' ').split()
+                    for f in FLAG_FIELDS:
+                        if f in fields:
+                            self.flag.setdefault(name, f)
+        self.funcs = [(m, c, f) for m in mods for (_, c, f) in idx.functions(m)]
+        self.byname = _collections.defaultdict(list)
+        for m, c, f in self.funcs:
+            self.byname[f.name].append(f)
+        self.prod = {}
+        self._assigns = {}
+        for _ in range(4):
+            changed = False
+            for m, c, f in self.funcs:
+                lt = self.local_types(f)
+                ts = []
+                for r in ast.walk(f):
+                    if not isinstance(r, ast.Return):
+                        continue
+                    if r.value is None or (isinstance(r.value, ast.Constant) and r.value.value is None):
+                        ts.append(('<none>', True))
+                    else:
+                        ts.append(self.expr_type(r.value, lt))
+                real = [t for t in ts if t and t[0] != '<none>']
+                if real and all(t is not None for t in ts) and len({t[0] for t in real}) == 1:
+                    v = (real[0][0], any(t[1] for t in ts))
+                    if self.prod.get(id(f)) != v:
+                        self.prod[id(f)] = v
+                        changed = True
+            if not changed:
+                break
+
+    @staticmethod
+    def _abstract(f):
+        return not any(isinstance(n, ast.Return) and n.value is not None for n in ast.walk(f)) and \
+            (any(isinstance(n, ast.Raise) for n in ast.walk(f)) or all(isinstance(b, (ast.Pass, ast.Expr)) for b in f.body))
+
+    def name_type(self, name):
+        fs = [f for f in self.byname.get(name, []) if not self._abstract(f)]
+        if not fs:
+            return None
+        ts = {self.prod.get(id(f)) for f in fs}
+        if None in ts or len({t[0] for t in ts}) != 1:
+            return None
+        return (next(iter(ts))[0], any(t[1] for t in ts))
+
+    def expr_type(self, e, lt):
+        if isinstance(e, ast.Call):
+            cn = _callee(e)
+            if cn in self.flag:
+                return (cn, False)
+            return self.name_type(cn)
+        if isinstance(e, ast.Name):
+            return lt.get(e.id)
+        return None
+
+    def assigns_of(self, fn):
+        if id(fn) in self._assigns:
+            return self._assigns[id(fn)]
+        asg = _collections.defaultdict(list)
+        for n in ast.walk(fn):
+            if isinstance(n, ast.Assign) and len(n.targets) == 1 and isinstance(n.targets[0], ast.Name):
+                asg[n.targets[0].id].append(n.value)
+            elif isinstance(n, ast.AnnAssign) and n.value is not None and isinstance(n.target, ast.Name):
+                asg[n.target.id].append(n.value)
+            elif isinstance(n, ast.Assign):
+                for t in n.targets:
+                    for x in ast.walk(t):
+                        if isinstance(x, ast.Name):
+                            asg[x.id].append(False)
+            elif isinstance(n, (ast.For, ast.AugAssign, ast.comprehension)):
+                for x in ast.walk(n.target):
+                    if isinstance(x, ast.Name):
+                        asg[x.id].append(False)
+            elif isinstance(n, ast.With):
+                for it in n.items:
+                    if it.optional_vars is not None:
+                        for x in ast.walk(it.optional_vars):
+                            if isinstance(x, ast.Name):
+                                asg[x.id].append(False)
+        for a in fn.args.args + fn.args.kwonlyargs:
+            asg[a.arg].append(False)
+        self._assigns[id(fn)] = asg
+        return asg
+
+    def local_types(self, fn):
+        """{local: (flag class, nullable, none_initialised)} for locals that only ever hold such a result (or None)"""
+        asg = self.assigns_of(fn)
+        out = {}
+        for _ in range(3):
+            for k, vs in asg.items():
+                ts, none_init = [], False
+                for v in vs:
+                    if v is False:
+                        ts.append(None)
+                    elif isinstance(v, ast.Constant) and v.value is None:
+                        none_init = True
+                        ts.append(('<none>', True))
+                    else:
+                        ts.append(self.expr_type(v, out))
+                real = [t for t in ts if t and t[0] != '<none>']
+                if real and all(t is not None for t in ts) and len({t[0] for t in real}) == 1:
+                    out[k] = (real[0][0], any(t[1] for t in ts), none_init)
+        return out
+
+
+def _bool_leaves(e):
+    if isinstance(e, ast.BoolOp):
+        for v in e.values:
+            yield from _bool_leaves(v)
+    elif isinstance(e, ast.UnaryOp) and isinstance(e.op, ast.Not):
+        yield from _bool_leaves(e.operand)
+    else:
+        yield e
+
+
+def flag_uses(ft, fn):
+    """[(kind, local, flag class, lineno)] kind: 'field' (x.success in a boolean context), 'guarded' (bare x, its flag
+    is read at or after this point), 'holder' (bare x, x is None-initialised: plain None guard), 'bare' (bare x used as
+    the flag)"""
+    lt = ft.local_types(fn)
+    if not lt:
+        return []
+    reads = _collections.defaultdict(list)
+    for n in ast.walk(fn):
+        if isinstance(n, ast.Attribute) and isinstance(n.value, ast.Name) and n.value.id in lt \
+                and n.attr == ft.flag[lt[n.value.id][0]]:
+            reads[n.value.id].append(n.lineno)
+    ctx = []
+    for n in ast.walk(fn):
+        if isinstance(n, (ast.If, ast.While, ast.IfExp, ast.Assert)):
+            ctx.append(n.test)
+        elif isinstance(n, ast.comprehension):
+            ctx.extend(n.ifs)
+        elif isinstance(n, ast.BoolOp) or (isinstance(n, ast.UnaryOp) and isinstance(n.op, ast.Not)):
+            ctx.append(n)
+    out, seen = [], set()
+    for e in ctx:
+        for lf in _bool_leaves(e):
+            if id(lf) in seen:
+                continue
+            seen.add(id(lf))
+            if isinstance(lf, ast.Attribute) and isinstance(lf.value, ast.Name) and lf.value.id in lt \
+                    and lf.attr == ft.flag[lt[lf.value.id][0]]:
+                out.append(('field', lf.value.id, lt[lf.value.id][0], lf.lineno))
+            elif isinstance(lf, ast.Name) and lf.id in lt:
+                cls, nullable, none_init = lt[lf.id]
+                if any(l >= lf.lineno for l in reads[lf.id]):
+                    out.append(('guarded', lf.id, cls, lf.lineno))
+                elif none_init:
+                    out.append(('holder', lf.id, cls, lf.lineno))
+                else:
+                    out.append(('bare', lf.id, cls, lf.lineno))
+    return out
+
+
+_FLAG_CONTROL = '''
+def basic_regex_match(self, source):
+    relative_match = RegExpUtility.match_end(self.config.strict_relative_regex, source[0:start], True)
+    if relative_match:
+        start = relative_match.index
+    ret.append(Token(start, end))
+'''
+
+
+def rule_flags(chk, idx, W):
+    chk.rule('C06.flags', 'a result object that carries a success/matched flag is never itself used as the flag', floor=60, control=True)
+    ft = FlagTypes(idx)
+    for need in ('ConditionalMatch', 'DateTimeResolutionResult'):
+        if need not in ft.flag:
+            raise AnalysisError('flag discipline: class %s (with a success field) not found' % need)
+    for need in ('match_begin', 'match_end'):
+        t = ft.name_type(need)
+        if not t or t[0] != 'ConditionalMatch':
+            raise AnalysisError('flag discipline: RegExpUtility.%s is no longer recognised as returning ConditionalMatch' % need)
+    # CheckBothBeforeAfter evaluated per culture (a use site under that switch is unreachable while it is False everywhere)
+    cbba = set()
+    ucfgs = {}
+    for q in ('base_date.DateTimeUtilityConfiguration', 'utilities.DateTimeUtilityConfiguration'):
+        ucfgs.update(W.culture_classes(DT + q))
+    for cul, cfg in ucfgs.items():
+        try:
+            for v in W.resolve(cfg, 'check_both_before_after'):
+                cbba.add(v.value)
+        except AnalysisError:
+            cbba.add(None)
+    for m, c, fn in ft.funcs:
+        if not m.name.startswith('recognizers_date_time'):
+            continue
+        uses = flag_uses(ft, fn)
+        if not uses:
+            continue
+        qual = '%s.%s' % (c.name, fn.name) if c else fn.name
+        # statements guarded by `<x>.check_both_before_after`
+        dead = set()
+        if cbba == {False}:
+            for n in ast.walk(fn):
+                if isinstance(n, ast.If) and isinstance(n.test, ast.Attribute) and n.test.attr == 'check_both_before_after':
+                    for b in n.body:
+                        for x in ast.walk(b):
+                            if hasattr(x, 'lineno'):
+                                dead.add(x.lineno)
+        per = _collections.Counter()
+        for kind, var, cls, ln in uses:
+            per[(kind, var, cls)] += 1
+            n_th = per[(kind, var, cls)]
+            cons = '%s::%s' % (qual, var)
+            detail = '%s %s#%d' % (cls, {'field': 'flag read', 'guarded': 'None guard, flag read follows',
+                                         'holder': 'None guard of a None-initialised holder', 'bare': 'object used as the flag'}[kind], n_th)
+            if kind != 'bare':
+                chk.ok('C06.flags', m.path, cons, detail, ln)
+            elif ln in dead:
+                chk.exempt('C06.flags', m.path, cons, 'unreachable: guarded by check_both_before_after, which is False in every culture', detail, ln)
+                chk.observe('%s:%d %s: `%s` (a %s) is tested for truthiness instead of .%s - dead code today (CheckBothBeforeAfter is False everywhere)'
+                            % (m.rel, ln, qual, var, cls, ft.flag[cls]))
+            elif (qual, var) in FLAG_TRIAGED:
+                chk.exempt('C06.flags', m.path, cons, FLAG_TRIAGED[(qual, var)], detail, ln)
+                chk.observe('%s:%d %s: `%s` (a %s) is tested for truthiness instead of .%s (triaged, see exemption)'
+                            % (m.rel, ln, qual, var, cls, ft.flag[cls]))
+            else:
+                chk.bad('C06.flags', m.path, cons, detail,
+                        '%s: `%s` holds a %s (always truthy%s) and is tested as if it were its `.%s` flag; the flag is never read '
+                        'at or after this point' % (qual, var, cls, ', or None when nothing matched at all' if cls == 'ConditionalMatch' else '',
+                                                    ft.flag[cls]), ln)
+    ctl = ast.parse(_FLAG_CONTROL).body[0]
+    chk.control('C06.flags', any(u[0] == 'bare' for u in flag_uses(ft, ctl)))
+    chk.extra['flag_classes'] = dict(ft.flag)
+    chk.extra['flag_producers'] = len(ft.prod)
 
 
 # ---------------------------------------------------------------------------------------------------------------
